@@ -174,18 +174,21 @@ type listener struct {
 	option   []transport.Option
 	options  *transport.Options
 	acceptor transport.Acceptor
+	mutex    sync.Mutex // guards acceptor: Close may run concurrently with Sync
 }
 
 // Acceptor returned the acceptor
 func (l *listener) Acceptor() transport.Acceptor {
+	l.mutex.Lock()
+	defer l.mutex.Unlock()
 	return l.acceptor
 }
 
 // Close listener
 func (l *listener) Close() error {
 	l.bs.removeListener(l.url)
-	if l.acceptor != nil {
-		return l.acceptor.Close()
+	if acceptor := l.Acceptor(); acceptor != nil {
+		return acceptor.Close()
 	}
 	return nil
 }
@@ -193,7 +196,7 @@ func (l *listener) Close() error {
 // Sync accept new transport from listener
 func (l *listener) Sync() error {
 
-	if nil != l.acceptor {
+	if nil != l.Acceptor() {
 		return fmt.Errorf("duplicate call Listener:Sync")
 	}
 
@@ -202,19 +205,24 @@ func (l *listener) Sync() error {
 		return err
 	}
 
-	if l.acceptor, err = l.bs.transportFactory.Listen(l.options); nil != err {
+	acceptor, err := l.bs.transportFactory.Listen(l.options)
+	if nil != err {
 		return err
 	}
 
+	l.mutex.Lock()
+	l.acceptor = acceptor
+	l.mutex.Unlock()
+
 	// Close or Shutdown may have run before the acceptor existed and found nothing to close.
 	if cur, ok := l.bs.listeners.Load(l.url); !ok || cur != Listener(l) {
-		_ = l.acceptor.Close()
+		_ = acceptor.Close()
 		return ErrServerClosed
 	}
 
 	for {
 		// accept the transport
-		t, err := l.acceptor.Accept()
+		t, err := acceptor.Accept()
 		if nil != err {
 			select {
 			case <-l.options.Context.Done():
